@@ -138,6 +138,14 @@ def run(prop, tier, seed, replay, clauses, n_quick, n_thorough, rule, gen_kw=Non
     for pl in plans:
         if pl.mode == "trait" and rng.random() < 0.12:
             pl.items = list(pl.items) + [("gfn", "mkarr", False)]     # a generic method (const before type parameter) among the delegated items
+        if pl.mode == "trait" and rng.random() < 0.12 and not any(k_ == "type" for k_, _, _ in pl.items):
+            # an associated type and a defaulted associated const of ONE name (different name spaces; the type declared first): blocks that
+            # override the const must be served their own value (seeded change C01i de-duplicated the forwarded items by bare identifier)
+            pl.items = [("type", "DC", False), ("const", "DC", True)] + list(pl.items)
+            for f_ in pl.families:
+                for m_ in f_.members:
+                    if m_.overrides is not None and rng.random() < 0.6:
+                        m_.overrides = set(m_.overrides) | {"DC"}
         if pl.mode == "trait" and rng.random() < 0.08:
             pl.header_qual = "self::"      # blocks naming the invocation's trait through a qualified path (D46)
     evs = PC.evaluate(so, plans)
